@@ -286,6 +286,12 @@ def eq_generators():
     def pool(rng):
         x = [rng.choice([2, 3, 4]), rng.choice([2, 3, 4]), rng.choice([1, 2])]
         ns = [ru32(rng, (1, 2, 0)), ru32(rng, (1, 2)), ru32(rng, (0, 1)), ru32(rng, (0, 1)), ru32(rng, (1, 2, 0)), ru32(rng, (1, 2))]
+        for i in (0, 1):
+            # a window of 2^31 inside a padding of 2^32 - 1 is admissible and makes every output element scan billions of
+            # (padding) positions: a run of hours, reported as a timeout (seen in a thorough run on the unchanged tree).
+            # A huge window therefore comes with a small padding (and is rejected), a huge padding with a small window.
+            if ns[i] > 64 and ns[2 + i] > 64:
+                ns[2 + i] = rng.choice([0, 1])
         return "%s %s" % (ttok(rng, x, rng.choice([1, 2])), " ".join(map(str, ns)))
     both("MaxPool2d", pool)
     both("Dropout", lambda rng: one(rng) + " " + rfloat(rng))
